@@ -195,6 +195,7 @@ class LemmaEngine(Engine):
         for nm in spec.opts.get("opaque", ()):
             self.opaque_models[nm](self)
         self.merge_calls = spec.opts.get("merge", True)
+        self.precise_strings = spec.opts.get("precise_strings", spec.module.name.endswith("path_laws"))
         st = State(self)
         fr = Frame(spec.module, None, None)
         st.frames.append(fr)
